@@ -175,6 +175,12 @@ def unit_arg(kind, ty="int"):
         root_items = [{"k": "call", "fn": "h1", "form": "plain"}]
         kargs = {"args": [{"local": 0}], "kwargs": []}
         eps = [{"id": "tag:h1", "kind": "body_tag", "n": 2}]
+    elif kind == "rt_local_helper_twice":
+        # the same context-free helper is called an even number of times before the kept call
+        extra = [{"name": "h1", "module": "main", "params": [], "body": []}]
+        root_items = [{"k": "call", "fn": "h1", "form": "plain"}, {"k": "call", "fn": "h1", "form": "plain"}]
+        kargs = {"args": [{"local": 0}], "kwargs": []}
+        eps = [{"id": "tag:h1", "kind": "body_tag", "n": 2}]
     elif kind == "rt_var":
         vars_ = [{"name": "V0", "module": "main", "values": [a, b]}]
         kargs = {"args": [{"var": "V0"}], "kwargs": []}
@@ -307,7 +313,7 @@ def unit_programs(level="quick"):
     for kind in ("lit_pos", "lit_kw", "lit_pos2", "lit_kw2", "default", "rt_local_const"):
         for ty in LIT:
             out.append(unit_arg(kind, ty))
-    for kind in ("rt_local_helper", "rt_var", "rt_inline", "rt_inline_kw", "rt_multiline", "rt_multiline_keep", "rt_ml2_lit", "rt_ml3_lit"):
+    for kind in ("rt_local_helper", "rt_local_helper_twice", "rt_var", "rt_inline", "rt_inline_kw", "rt_multiline", "rt_multiline_keep", "rt_ml2_lit", "rt_ml3_lit"):
         out.append(unit_arg(kind))
     out += [unit_ext("fn"), unit_ext("var")]
     out += [unit_structural(k) for k in ("unrel", "reorder", "cmt_other")]
